@@ -415,6 +415,7 @@ class Session(object):
         #                               until the transaction ends, even if
         #                               the row is deleted again (named locks)
         self.open = True
+        self._to_delete = []
         self.explicit = False         # demarcated by start_tx()
         self.bind = Session._Bind()
         self.bind.url = Session._Url()
@@ -432,9 +433,25 @@ class Session(object):
         if obj not in self.pending:
             self.pending.append(obj)
 
+    def delete(self, obj):
+        """session.delete(obj): DELETE ... WHERE pk at the next flush (a
+        row that is already gone only produces a warning in SQLAlchemy)"""
+        self._to_delete.append(obj)
+
     @property
     def dirty(self):
-        return [i for i in self.identity.values() if self._changes(i)]
+        # SQLAlchemy's Session.dirty is optimistic: an attribute set event
+        # marks the instance dirty even if there is no net change
+        import sqlalchemy as sa
+        out = []
+        for i in self.identity.values():
+            m = _meta(i)
+            if m is None or m.deleted:
+                continue
+            cs = sa.inspect(i).committed_state
+            if any(k in cs for k in columns_of(m.model)):
+                out.append(i)
+        return out
 
     def expire_all(self):
         self.flush()
@@ -518,6 +535,18 @@ class Session(object):
     # -- flush / commit ---------------------------------------------------
     def flush(self, objects=None):
         from oslo_db import exception as db_exc
+        dels, self._to_delete = self._to_delete, []
+        for obj in dels:
+            m = _meta(obj)
+            if m is None:
+                continue
+            key = (m.model, m.pk)
+            self._hand_off('delete')
+            self._lock(key)
+            if self._visible_rec(key) is not None:
+                self.delete_record(m.model, m.pk)
+            m.deleted = True
+            self.db.log.append((self.name, 'delete-obj', m.model.__name__))
         pend, self.pending = self.pending, []
         for obj in pend:
             model = type(obj)
